@@ -213,6 +213,54 @@ HDR_TOKENS = [b'#diffx:', b'#.change:', b'#..file:', b'#...meta:',
 RAW = [b'#', b'.', b'd', b':', b' ', b'=', b'\n', b'\r', b'\xff', b'1']
 
 
+SCALE_SIZES = [95, 96, 97, 191, 192, 193, 1000, 4095, 4096, 4097, 8192,
+               65535, 65536, 65537, 1000000]
+SCALE_DEPTHS = [10, 100, 500, 990, 1000, 1010, 5000, 100000]
+
+
+def scale_inputs(tier):
+    """Boundary sizes of everything that can be long, deep or numerous in a
+    file: lines without a newline, header lines, option values, runs of
+    blank lines, content lines, JSON nesting, section counts."""
+    H = b'#diffx: encoding=utf-8, version=1.0\n'
+    out = []
+    for n in SCALE_SIZES:
+        x = b'x' * n
+        out.append(('long-first-line', x))
+        out.append(('long-first-line-nl', x + b'\n'))
+        out.append(('long-header-value', b'#diffx: encoding=utf-8, '
+                    b'version=1.0, z=' + b'a' * n + b'\n#.change:\n'))
+        out.append(('long-version', b'#diffx: encoding=utf-8, version=' + x))
+        out.append(('long-version-nl', b'#diffx: encoding=utf-8, version=' +
+                    x + b'\n'))
+        out.append(('long-second-line', H + x))
+        out.append(('long-second-header', H + b'#.change: z=' + x + b'\n'))
+        out.append(('long-content-line', H + b'#.preamble: length=%d\n'
+                    % (n + 1) + x + b'\n'))
+        out.append(('long-content-no-nl', H + b'#.preamble: length=%d\n'
+                    % n + x))
+        out.append(('long-meta-string', H + b'#.meta: length=%d\n'
+                    % (n + 8) + b'{"a":"' + x + b'"}\n'))
+        if n <= 100000:
+            out.append(('blank-lines', b'\n' * n + H + b'#.change:\n'))
+            out.append(('blank-lines-between', H + b' \n' * n +
+                        b'#.change:\n'))
+            out.append(('many-options', b'#diffx: version=1.0, ' + b', '.join(
+                b'k%d=v' % i for i in range(n // 8 + 1)) + b'\n'))
+        if n <= 10000:
+            out.append(('many-changes', H + b'#.change:\n#..file:\n'
+                        b'#...meta: length=3\n{}\n' * n))
+    for d in SCALE_DEPTHS:
+        for o, c in ((b'[', b']'), (b'{"a":', b'}')):
+            body = o * d + (b'1' if o != b'[' else b'') + c * d + b'\n'
+            out.append(('deep-json', H + b'#.meta: format=json, length=%d\n'
+                        % len(body) + body))
+            out.append(('deep-json-unclosed', H +
+                        b'#.meta: format=json, length=%d\n' % (len(o) * d + 1)
+                        + o * d + b'\n'))
+    return out
+
+
 def plan(tier):
     fs = base_files(tier)
     units = []
@@ -227,6 +275,9 @@ def plan(tier):
             for lo in range(0, len(toks), 12):
                 units.append(('token-pairs', fi, lo, min(lo + 12,
                                                          len(toks))))
+    nsc = len(scale_inputs(tier))
+    for lo in range(0, nsc, 8):
+        units.append(('scale', lo, min(lo + 8, nsc)))
     L = 5 if tier == 'quick' else 6
     for a in range(len(HDR_TOKENS)):
         units.append(('hdr-strings', a, L))
@@ -243,7 +294,11 @@ def plan(tier):
                 'duplicated, added), line level (delete / duplicate / swap '
                 '/ flip newline style / blank line before)%s; plus every '
                 'string of <= %d tokens over a %d-token header alphabet and '
-                'every byte string of length <= %d over %r. Each input is '
+                'every byte string of length <= %d over %r; plus a scale pass: '
+                'boundary sizes (95..97, 191..193, 1000, 4095..4097, 65535..'
+                '65537, 10^6) of first lines, header lines, option values, '
+                'blank-line runs, content lines, JSON strings, section '
+                'counts, and JSON nesting depths 10..100000. Each input is '
                 'read by the real DiffXReader and loaded by DiffX.from_bytes '
                 '/ from_stream under a watchdog. Non-trivial: corrupted '
                 'file that gets past the main header.'
@@ -345,6 +400,14 @@ def _run_unit_body(unit, tier, acc, one):
                     d2 = d2[:pos] + hdr + d2[eol:]
                 one(d2, {'kind': 'data', 'data': to_jsonable(d2)},
                     'file %s %s@%d + %s@%d' % (name, la, ha, lb, hb))
+    elif unit[0] == 'scale':
+        sc = scale_inputs(tier)[unit[1]:unit[2]]
+        for label, d2 in sc:
+            one(d2, {'kind': 'scale', 'index': unit[1] + sc.index((label,
+                                                                    d2)),
+                     'label': label, 'size': len(d2)},
+                'scale input %s, %d bytes' % (label, len(d2)))
+        acc.sample({'scale_inputs': sorted(set(l for l, d in sc))}, 1)
     elif unit[0] == 'lines':
         name, data = fs[unit[1]]
         for label, d2 in line_corruptions(data):
@@ -373,9 +436,12 @@ def _run_unit_body(unit, tier, acc, one):
 
 
 def replay(payload):
-    if payload.get('kind') != 'data':
+    if payload.get('kind') == 'scale':
+        label, data = scale_inputs('quick')[payload['index']]
+    elif payload.get('kind') != 'data':
         return []
-    data = from_jsonable(payload['data'])
+    else:
+        data = from_jsonable(payload['data'])
     signal.signal(signal.SIGALRM, _alarm)
     signal.setitimer(signal.ITIMER_REAL, WATCHDOG_S)
     try:
